@@ -84,3 +84,44 @@ package lossy
 //@   ensures result != nil
 //@   resets result zero: frmHdr picHdr filterHdr segHdr mbW mbH mbX mbY br parts numPartsMinusOne useSkipProba skipP filterType AlphaData intraL \
 //@     scratch: tlMBX tlMBY brMBX brMBY proba dqm fstrengths intraT yuvT mbInfo fInfo yuvB mbData cacheY cacheU cacheV cacheYStride cacheUVStride cacheYOff cacheUOff cacheVOff slab dcScratch
+//
+// ---- C02: the VP8 key-frame header and partition table (RFC 6386 section 9.1, 9.5) ----
+//
+// 3-byte frame tag: bit 0 = 0 (key frame), bits 1-3 profile 0, bit 4 show = 1,
+// bits 5..23 = size of partition 0; start code 9d 01 2a; 14-bit width and
+// height with zero scale; partition 0; one 3-byte little-endian size per
+// token partition except the last; then the token partitions.
+//@ pure func le24r(b []byte, i int) int = int(b[i]) | int(b[i+1])<<8 | int(b[i+2])<<16
+//
+//@ func (enc *VP8Encoder) assembleFrame
+//@   property C02 C06
+//@   requires enc != nil && 1 <= enc.width && enc.width <= 16383 && 1 <= enc.height && enc.height <= 16383
+//@   requires len(part0) < 1<<19 && 1 <= len(tokenParts) && len(tokenParts) <= 8
+//@   requires forall j int :: 0 <= j && j < len(tokenParts) ==> len(tokenParts[j]) < 1<<24
+//@   modifies nothing
+//@   loop 0: invariant 0 <= totalSize && totalSize <= 13 + len(part0) + 3*8 + (rangeindex+1)*(1<<24)
+//@   loop 1: invariant 0 <= i && i <= len(tokenParts)-1 && len(buf) == 10 + len(part0) + 3*i
+//@   loop 1: invariant int(buf[0]) | int(buf[1])<<8 | int(buf[2])<<16 == 16 | len(part0)<<5
+//@   loop 1: invariant buf[3] == 0x9d && buf[4] == 0x01 && buf[5] == 0x2a
+//@   loop 1: invariant int(buf[6]) | int(buf[7])<<8 == enc.width && int(buf[8]) | int(buf[9])<<8 == enc.height
+//@   loop 1: invariant forall j int in 0..7 :: j < i ==> le24r(buf, 10 + len(part0) + 3*j) == len(tokenParts[j])
+//@   loop 1: decreases len(tokenParts) - i
+//@   loop 2: invariant len(buf) >= 10 + len(part0) + (len(tokenParts) > 1 ? 3*(len(tokenParts)-1) : 0)
+//@   loop 2: invariant int(buf[0]) | int(buf[1])<<8 | int(buf[2])<<16 == 16 | len(part0)<<5
+//@   loop 2: invariant buf[3] == 0x9d && buf[4] == 0x01 && buf[5] == 0x2a
+//@   loop 2: invariant int(buf[6]) | int(buf[7])<<8 == enc.width && int(buf[8]) | int(buf[9])<<8 == enc.height
+//@   loop 2: invariant forall j int in 0..7 :: j < len(tokenParts)-1 ==> le24r(buf, 10 + len(part0) + 3*j) == len(tokenParts[j])
+//@   ensures len(result) >= 10 + len(part0)
+//@   ensures int(result[0]) | int(result[1])<<8 | int(result[2])<<16 == 16 | len(part0)<<5
+//@   ensures result[3] == 0x9d && result[4] == 0x01 && result[5] == 0x2a
+//@   ensures int(result[6]) | int(result[7])<<8 == enc.width && int(result[8]) | int(result[9])<<8 == enc.height
+//@   ensures forall j int in 0..7 :: j < len(tokenParts)-1 ==> le24r(result, 10 + len(part0) + 3*j) == len(tokenParts[j])
+//
+// The field widths of the frame header are preconditions of assembleFrame:
+// emitFrame has to establish them (partition 0 < 2^19 bytes, token
+// partitions < 2^24 bytes).
+//@ func (enc *VP8Encoder) emitFrame
+//@   property C02
+//@   requires enc != nil && 1 <= enc.width && enc.width <= 16383 && 1 <= enc.height && enc.height <= 16383
+//@   abstract emitPartition0, emitTokenPartitions
+//@   modifies *
